@@ -337,7 +337,7 @@ class TU:
         # structural digest of an initialiser: ids, source positions and implicit flags removed
         if isinstance(n, dict):
             return tuple(sorted((k, TU._digest(v)) for k, v in n.items()
-                                if k not in ('id', 'loc', 'range', 'isUsed', 'isReferenced', 'previousDecl')))
+                                if k not in ('id', 'loc', 'range', 'isUsed', 'isReferenced', 'previousDecl') and not k.endswith('Id')))
         if isinstance(n, list):
             return tuple(TU._digest(x) for x in n)
         return n
